@@ -16,7 +16,7 @@ REQUIRED_COUNTERS = ["queries.memory", "queries.sqlite", "queries.peewee", "quer
 RULE = ("generated programs biased towards in-place mutators (categorize, tag, split_url_events, period_union, flood, "
         "chunk_events_by_key, merge_events_by_keys), a third of them made to raise midway (unknown function after a "
         "mutating call, unknown bucket, wrong type), run through aw_query.query against a store of each backend "
-        "holding three populated buckets (minutes of data, or - 6 of the 15 workers - most of a year of 6-24 h events, so that windows span weeks and months), with windows of any UTC offset (whole data range, partial, zero-width, "
+        "holding three populated buckets (a few events with negative durations, identical twins and a day-long event among them; minutes of data, or - 6 of the 15 workers - most of a year of 6-24 h events, so that windows span weeks and months), with windows of any UTC offset (whole data range, partial, zero-width, "
         "outside all data, sub-second edges), with an occasional direct write to a bucket between two queries; before/after each query every bucket is dumped (events + metadata) and "
         "compared; every query_bucket / query_bucket_eventcount result recorded at the registry is compared with a "
         "direct windowed read / count of the same bucket over the query's own instants; non-trivial = the program "
@@ -48,7 +48,7 @@ def _ensure(ctx, backend, data_key):
         _S["reg"] = qlang.Registry()
         _S["reg"].keep_results_of = {"query_bucket", "query_bucket_eventcount"}
     st = Store(backend, ctx.tmp)
-    lo, hi = qlang.populate(st.ds, random.Random(data_key), 1_600_000_000_000_000, long_range=data_key.endswith("-long"))
+    lo, hi = qlang.populate(st.ds, random.Random(data_key), 1_600_000_000_000_000, long_range=data_key.endswith("-long"), odd_events=True)
     dump = dump_store(st.ds)
     ends = sorted({t[1] + t[2] for _, evs in dump.values() for t in evs})
     _S.update(st=st, lo=lo, hi=hi, backend=backend, dump=dump, key=(backend, data_key), ends=ends)
